@@ -508,6 +508,7 @@ func (w *world) oracleC08() {
 		w.checkAsync(jd, jc, dColls)
 		w.checkGauge(prop, jd, dColls)
 	}
+	w.checkAsyncEvery()
 	// interval bookkeeping: delta intervals adjacent and non-overlapping, cumulative start fixed
 	for _, in := range w.insts {
 		for _, st := range in.streams {
@@ -632,6 +633,60 @@ func (w *world) limited(in *inst, obs map[string]int64) map[string]int64 {
 		}
 	}
 	return out
+}
+
+// checkAsyncEvery: every successful collection of the cumulative reader - also the individual ones, which may
+// overlap each other and anything else - reports for each asynchronous instrument exactly what the callbacks
+// run by that very collection observed (a collection runs its callbacks and aggregates under the pipeline
+// lock; after seeded change C12-k, which turns that lock into a read lock: of two overlapping collections one
+// reports every observation twice and the other nothing).
+//
+//go:norace
+func (w *world) checkAsyncEvery() {
+	props := []string{"C08"}
+	lim := ""
+	if w.limit > 0 {
+		props = append(props, "C12")
+		lim = "/limit"
+	}
+	for _, c := range w.colls {
+		if c.reader != "C" || c.err != nil || c.ret == 0 || c.joint != 0 {
+			continue
+		}
+		for _, in := range w.insts {
+			if !in.kind.isAsync() {
+				continue
+			}
+			ctx, pr := lim, props
+			for _, a := range w.colls {
+				// an abandoned collection of this reader that is not separated from c by a successful one
+				// (known finding C08-K1)
+				if a == c || a.reader != c.reader || a.err == nil || a.ret == 0 || a.inv > c.ret || len(a.observed[in.idx]) == 0 {
+					continue
+				}
+				sep := false
+				for _, o := range w.colls {
+					if o != c && o.reader == c.reader && o.err == nil && o.ret != 0 && o.inv > a.ret && o.ret < c.inv {
+						sep = true
+					}
+				}
+				if !sep {
+					ctx, pr = lim+"/after-abandoned-collection", props[:1]
+				}
+			}
+			name := in.name
+			obs := w.limited(in, c.observed[in.idx])
+			if !sameKeys(c.data[name], obs) {
+				w.viol(pr, "async-sets-mismatch", "async-sets-mismatch/cumulative"+ctx, "%s in collection #%d of the cumulative reader (%d..%d, not a joint point): reported sets %v, its callbacks observed %v (limit %d)", name, c.idx, c.inv, c.ret, keysOf(c.data[name]), keysOfI(c.observed[in.idx]), w.limit)
+				continue
+			}
+			for k, v := range obs {
+				if c.data[name][k].ival != v {
+					w.viol(pr, "async-value-mismatch", "async-value-mismatch/cumulative"+ctx, "%s set [%s] in collection #%d of the cumulative reader (%d..%d, not a joint point): reported %d, its callback observed %d", name, k, c.idx, c.inv, c.ret, c.data[name][k].ival, v)
+				}
+			}
+		}
+	}
 }
 
 //go:norace
